@@ -128,7 +128,7 @@ func checkC11(o options) int {
 				continue
 			}
 			unknown++
-			if unknown > 5 {
+			if unknown > o.maxClasses {
 				continue
 			}
 			bin := race.bin
@@ -140,6 +140,9 @@ func checkC11(o options) int {
 			budget := "120s"
 			if o.tier == "thorough" {
 				budget = "300s"
+			}
+			if o.minBudget > 0 {
+				budget = o.minBudget.String()
 			}
 			cmdEnv := append(os.Environ(), goraceEnv(rlog)...)
 			out, err := run(scratch, cmdEnv, bin, "c11-min", "--out", minPath, "--budget", budget, "--racelog", rlog, v.Replay)
